@@ -765,13 +765,21 @@ def rule_success_only_against_own_kind(em, rep, rid):
             key = '%s:%s' % (u.qname if u.cls is c else '%s(%s)' % (u.qname, c.name), norm(call)[:40])
             ok = False
             me = v.params[0] if v.params else 'self'
-            for t in dom[m]:
-                e = t.ast if t.kind == 'test' else None
-                lab = 'true'
+            def implied(e, lab):
+                """the elementary tests (expr, outcome) that hold on the ``lab`` branch of test e"""
                 while isinstance(e, ast.UnaryOp) and isinstance(e.op, ast.Not):
                     e, lab = e.operand, ('false' if lab == 'true' else 'true')
-                same = False
+                if isinstance(e, ast.BoolOp) and ((isinstance(e.op, ast.And) and lab == 'true') or (isinstance(e.op, ast.Or) and lab == 'false')):
+                    out = []
+                    for x in e.values:
+                        out.extend(implied(x, lab))
+                    return out
+                return [(e, lab)]
+
+            def own_kind(e, outcome):
                 if isinstance(e, ast.Call) and is_name(e.func, 'isinstance') and len(e.args) == 2:
+                    if outcome != 'true':
+                        return False
                     names = {x.id for x in ast.walk(e.args[1]) if isinstance(x, ast.Name)}
                     k_ = e.args[1]
                     if isinstance(k_, ast.Attribute) and is_name(k_.value, me):
@@ -784,16 +792,20 @@ def rule_success_only_against_own_kind(em, rep, rid):
                         for kc in em.repo.mro(c):
                             if not names and isinstance(kc.class_attrs.get(k_.attr), ast.Name):
                                 names.add(kc.class_attrs[k_.attr].id)
-                    same = bool(names) and names <= own
-                elif isinstance(e, ast.Compare) and len(e.ops) == 1 and isinstance(e.ops[0], (ast.Is, ast.IsNot)) and \
+                    return bool(names) and names <= own
+                if isinstance(e, ast.Compare) and len(e.ops) == 1 and isinstance(e.ops[0], (ast.Is, ast.IsNot)) and \
                         (is_name(e.left, me) or is_name(e.comparators[0], me)):
-                    same = True         # the very same object is of the same class
-                    if isinstance(e.ops[0], ast.IsNot):
-                        lab = 'false' if lab == 'true' else 'true'
-                if same:
-                    r = cfg.g.reach([cfg.entry], edge_ok=lambda lbl, a, b, t=t, lab=lab: not (a is t and lbl == lab))
-                    if m not in r:
-                        ok = True
+                    # the very same object is of the same class
+                    return outcome == ('true' if isinstance(e.ops[0], ast.Is) else 'false')
+                return False
+            for t in dom[m]:
+                if t.kind != 'test' or t.ast is None:
+                    continue
+                for lab in ('true', 'false'):
+                    if any(own_kind(e, o) for e, o in implied(t.ast, lab)):
+                        r = cfg.g.reach([cfg.entry], edge_ok=lambda lbl, a, b, t=t, lab=lab: not (a is t and lbl == lab))
+                        if m not in r:
+                            ok = True
             if ok:
                 rep.ok(rid, key, 'only when the other term is a %s' % c.name, v.loc(call))
             else:
